@@ -90,12 +90,15 @@ XB = ("Trusted: Lean 4.33 kernel, axioms propext/Classical.choice/Quot.sound onl
       "validated against PLY on >450 000 generated texts, and re-compared on every run); PLY 3.11 and Python's re/unicode_escape are modelled, not verified; Python's \\d is "
       "modelled as ASCII digits; float texts are exact decimals (rounded to doubles only for comparison); the sign of zero and float texts in exponent range inside unquoted "
       "strings are outside the model (counted). ")
-claim("C10", "DESIGN.md 5/C10", "differential correspondence of the real parser with the Lean lexer+grammar model + render/parse round-trip oracle (Lean round-trip theorem: see level text)",
-      "The executable Lean model of lexer and grammar (Model/Lexer, Model/Grammar) is compared with Parser().parse on every run over renderings of random abstract programs "
-      "under random layouts, their single-character mutations and token soups (whole tree with line numbers, or error class); the oracle checks that every rendering parses to "
-      "exactly the abstract program written, for every layout. Theorems proved so far are about the serializer side (C15) and line counting (C11); the general parse∘render = id "
-      "theorem over all layouts is NOT yet proved: this check is partial as proof and decisive as translation validation. Known finding F10 (unquoted multi-token strings) is re-run and listed.",
-      XB, category="translation_validation")
+claim("C10", "DESIGN.md 5/C10 and 9", "Lean theorems: characters -> tokens -> program (parse_text) + differential correspondence of the real parser with the Lean lexer+grammar model + render/parse round-trip oracle",
+      "Theorems in MPilot.C10: parse_text - a text made of token spellings (identifiers, integers, decimals, quoted strings of any content, punctuation) separated by arbitrary layout "
+      "(blanks, tabs, LF or CR LF, comments) whose tokens render a program (commands, named arguments, numbers, quoted and bare-identifier strings, lists nested to any depth, trailing commas or not) "
+      "parses to exactly that program with every node on the line it starts on; built from lexS_gap / spells_* (character level, Lemmas/Lex, incl. lexAll_fuel: the lexer's recursion bound never loses a token) and "
+      "program_renders (token level, mutual induction over values; it exposed and fixed an inadequate recursion budget of the model). NOT covered by the theorem, and decided by the correspondence and the "
+      "round-trip oracle on the implementation only: tuples (key: value lists), unquoted non-identifier strings, exponent-form decimals, quoted strings spanning lines, EEMS 2.0 command form, and the "
+      "rejection of malformed text (partial as proof for those). The executable model is compared with Parser().parse on every run over renderings of random abstract programs under random layouts, their "
+      "single-character mutations and token soups (whole tree with line numbers, or error class). Known finding F10 (unquoted multi-token strings) is re-run and listed.",
+      XB)
 claim("C11", "DESIGN.md 5/C11", "Lean theorems on line counting + differential correspondence incl. every line number + by-construction line oracles",
       "In the model a parse is a function of the text alone (history independence is definitional; the real Parser is compared after 0-3 earlier parses and earlier loads in the process). "
       "Theorems in MPilot.C11 state what the line of a token is (1 + line breaks before it, CRLF once, line breaks inside quoted strings counted). Load-time and pre-pass errors carry the line of "
